@@ -1,0 +1,64 @@
+//go:build verif
+
+package jrpc2
+
+import (
+	"encoding/json"
+	"fmt"
+	"os"
+	"path/filepath"
+	"sync"
+
+	"github.com/creachadair/jrpc2/internal/vhook"
+)
+
+// When the environment variable VERIF_HOOKTRACE names a directory, every
+// vhook.Event of this process is appended as one JSON line to
+// <dir>/hooks-<pid>.ndjson (free-running: no scheduling points are installed).
+// This lets a verification harness record traces of ordinary test runs. It
+// exists only in builds with the "verif" tag.
+func init() {
+	dir := os.Getenv("VERIF_HOOKTRACE")
+	if dir == "" {
+		return
+	}
+	f, err := os.OpenFile(filepath.Join(dir, fmt.Sprintf("hooks-%d.ndjson", os.Getpid())), os.O_CREATE|os.O_WRONLY|os.O_APPEND, 0o644)
+	if err != nil {
+		return
+	}
+	var mu sync.Mutex
+	seq := 0
+	enc := json.NewEncoder(f)
+	vhook.Install(nil, func(name string, args ...any) {
+		rec := map[string]any{"ev": name}
+		for i, a := range args {
+			key := fmt.Sprintf("a%d", i)
+			switch v := a.(type) {
+			case *Server:
+				rec["srv"] = fmt.Sprintf("%p", v)
+			case *Client:
+				rec["cli"] = fmt.Sprintf("%p", v)
+			case *Request:
+				rec["req"] = fmt.Sprintf("%p", v)
+				if v != nil {
+					rec["note"] = v.IsNotification()
+				}
+			case error:
+				rec[key] = "err"
+			case nil:
+				rec[key] = "nil"
+			case string, int, bool:
+				rec[key] = v
+			case Code:
+				rec[key] = int(v)
+			default:
+				rec[key] = fmt.Sprintf("%T", v)
+			}
+		}
+		mu.Lock()
+		seq++
+		rec["seq"] = seq
+		enc.Encode(rec)
+		mu.Unlock()
+	})
+}
